@@ -90,4 +90,14 @@ def main(argv):
 
 
 if __name__ == '__main__':
-    sys.exit(main(sys.argv[1:]))
+    try:
+        rc = main(sys.argv[1:])
+        sys.stdout.flush()
+    except BrokenPipeError:
+        # the reader closed the pipe (e.g. `| head`): not an analysis problem
+        try:
+            sys.stdout.close()
+        except Exception:
+            pass
+        os._exit(0)
+    sys.exit(rc)
